@@ -191,6 +191,14 @@ def run(case, res):
             s = transforms.sanity(result)
             if s:
                 return Violation('result', 'not_well_formed', {'op': kind, 'exc': s}, tags)
+            # the name index of the result must lead to the memories its nets use (that is how
+            # a user obtains them for memory_value_map / inspect_mem)
+            for net in result.logic:
+                if net.op in 'm@':
+                    m = net.op_param[1]
+                    if result.memblock_by_name.get(m.name) is not m:
+                        return Violation('result', 'memblock_by_name_is_not_the_memory_in_use',
+                                         {'op': kind, 'mem': m.name}, tags)
             ent = Entry(result, tgt.tape, '%s(%s)#%d' % (kind, tgt.label, oi))
             compare = True
             if kind == 'opt':
